@@ -181,6 +181,68 @@ pub fn cloned_signal_list_part(deadline: &Deadline) -> Stats {
 
 /// Another use of the public `signals` field: further pins are pushed onto the list of a loaded
 /// test (a caller that keeps all pins of the circuit there). The rows do not change.
+/// A driver that lists the declared signal itself among its answers (a generic front end that
+/// answers for every signal of the public `signals` field that is not an input): whatever the
+/// library makes of such an answer, a row it returns carries, for the declared signal, the
+/// declaration evaluated over that row's outputs - never the driver's number, and never a value at
+/// all where the declaration reads Z.
+pub fn driver_answers_for_declared_part(deadline: &Deadline) -> Stats {
+    use crate::driver::Step;
+    use crate::props::util::*;
+    type F = fn(Option<i64>, Option<i64>) -> Option<i64>;
+    let progs: Vec<(&str, F)> = vec![
+        ("A Q V\ndeclare V = Q + 1;\n1 X X\n2 1 3\n3 X 99\n", |q, _| q.map(|q| q + 1)),
+        ("A V\ndeclare V = Q * 2 + R;\n1 X\nC 7\n2 99\n", |q, r| Some(q? * 2 + r?)),
+        ("A Q\ndeclare V = (Q);\n1 X\n2 X\n", |q, _| q),
+        ("A Q V\nlet Q = 9;\ndeclare V = ite(R, Q, 7);\n1 X X\n(Q) X 99\n", |q, r| if r? != 0 { q } else { Some(7) }),
+    ];
+    let sigs = sigs();
+    let vnum = [0i64, 99, -1, 3];
+    let qs = [V::Num(2), V::Num(98), V::Z, V::X];
+    let positions = 3usize;
+    par_range("driver that also answers for the declared signal: 4 programs x 4 values given for it x 3 positions in the answer x 4 values of Q x {every call, from the second call on}", (progs.len() * vnum.len() * positions * qs.len() * 2) as u64, deadline, |u, st| {
+        let d = digits(u, &[2, qs.len() as u64, positions as u64, vnum.len() as u64, progs.len() as u64]);
+        let (text, f) = progs[d[4]];
+        let Ok(tc) = load(text, &sigs, DEFAULT_BUDGET) else { return };
+        let qv = qs[d[1]];
+        let mut ans: Answer = vec![("Q".to_string(), qv), ("R".to_string(), V::Num(1))];
+        let plain = ans.clone();
+        ans.insert(d[2], ("V".to_string(), V::Num(vnum[d[3]])));
+        // the first answer fixes the layout: with and without the entry for the declared signal
+        let script = if d[0] == 0 { vec![Step::Ans(ans)] } else { vec![Step::Ans(plain), Step::Ans(ans)] };
+        let mut opts = RunOpts::new(10);
+        opts.repeat_last = true;
+        opts.continue_after_error = true;
+        opts.know_declared = true;
+        let o = run_loaded(&tc, &sigs, true, &script, &opts);
+        st.evals += 1;
+        st.nontrivial += 1;
+        st.witness("driver_that_answers_for_the_declared_signal");
+        let num = |v: V| match v {
+            V::Num(n) => Some(n),
+            _ => None,
+        };
+        let want = f(num(qv), Some(1));
+        for (k, it) in o.items.iter().enumerate() {
+            let bad = match it {
+                ObsItem::Row(r) => r.outputs.iter().find(|x| x.name == "V").and_then(|x| match (want, x.output) {
+                    (Some(w), V::Num(g)) if w == g => None,
+                    (w, g) => Some(format!("the row carries V = {}, the declaration over this row's outputs gives {}", g.show(), w.map(|w| w.to_string()).unwrap_or("no value (it reads Z/X): an error item".into()))),
+                }),
+                ObsItem::Panic(p) => Some(format!("panic: {p}")),
+                _ => {
+                    st.witness("answer_naming_the_declared_signal_refused");
+                    None
+                }
+            };
+            if let Some(b) = bad {
+                st.violation("a declared signal takes the value the driver lists for it", u, format!("program:\n{text}the driver answers {:?} (repeated)\nitem {k}: {b}", script.last()), || dyn_replay(text, &sigs, true, &script, &opts, vec!["rows whose V is the declaration over the row's outputs, or error items".into()], &o, &b));
+                return;
+            }
+        }
+    })
+}
+
 pub fn pushed_signal_part(deadline: &Deadline) -> Stats {
     use crate::driver::Step;
     use crate::props::util::*;
@@ -424,6 +486,7 @@ pub fn run(tier: Tier, seed: u64) -> i32 {
     let mut parts = crate::props::c13::api_use_part(&deadline);
     parts.merge(cloned_signal_list_part(&deadline));
     parts.merge(pushed_signal_part(&deadline));
+    parts.merge(driver_answers_for_declared_part(&deadline));
     let ncases = cases.len();
     let nshadow = cases.iter().filter(|c| c.name.contains("shadow 1") || c.name.contains("shadow 2") || c.name.contains("shadow 4")).count();
     let res = explore(cases, oracle(), true, &deadline);
